@@ -225,6 +225,9 @@ func (fr *Frame) lockAcquired(st *State, m Term, av []ssa.Value) {
 		_ = e
 		st.ghost["epoch"] = fr.u.fresh("epoch", SInt)
 		fr.u.assume(True, Gt(st.ghost["epoch"], e))
+		// csStart(): the new critical section begins with the current allocation watermark
+		fr.u.declareFun("epochStart", []string{"Int"}, SInt)
+		fr.u.assume(True, Eq(mk(SInt, "epochStart", st.ghost["epoch"]), st.alloc))
 	}
 }
 
